@@ -182,3 +182,50 @@ def monC11 (contract saferun : Bool) (evs : List Ev) (outs : List (List Ev)) : S
   else "ok"
 
 end Cuke.Mon
+
+namespace Cuke.Mon
+open Cuke
+
+/-! ## C20: tracing attribution on the event stream of a real run -/
+
+/-- message id = scenario * 10000 + step * 100 + k -/
+def msgScen (m : Nat) : Nat := m / 10000
+def msgStep (m : Nat) : Nat := (m % 10000) / 100
+def msgK (m : Nat) : Nat := m % 100
+
+/-- walk the events of ONE attempt: logs of step `i` must lie between `step i started` and its result,
+    numbered 0..n-1 in order, exactly once -/
+def attemptLogsOk (scen : Nat) (plan : List (Nat × Nat × Nat)) (evs : List ScenEv) : Option String :=
+  let r := evs.foldl (fun (acc : Option Nat × Nat × Option String) e =>
+    -- acc = (open step, next expected k, error)
+    match acc.2.2 with
+    | some _ => acc
+    | none =>
+      match e with
+      | .step i .started => (some i, 0, none)
+      | .step i _ =>
+        let n := ((plan.find? (fun p => p.1 == scen && p.2.1 == i)).map (·.2.2)).getD 0
+        if acc.1 == some i && acc.2.1 == n then (none, 0, none)
+        else (none, 0, some s!"step {i} of scenario {scen}: {acc.2.1} logs delivered before its result, expected {n}")
+      | .log m =>
+        match acc.1 with
+        | none => (acc.1, acc.2.1, some s!"log {m} outside any step of scenario {scen}")
+        | some i =>
+          if msgScen m != scen then (acc.1, acc.2.1, some s!"log of scenario {msgScen m} attributed to scenario {scen}")
+          else if msgStep m != i then (acc.1, acc.2.1, some s!"log of step {msgStep m} delivered inside step {i}")
+          else if msgK m != acc.2.1 then (acc.1, acc.2.1, some s!"log {m} out of order / duplicated / lost (expected k = {acc.2.1})")
+          else (acc.1, acc.2.1 + 1, none)
+      | _ => acc) (none, 0, none)
+  r.2.2
+
+def monC20 (plan : List (Nat × Nat × Nat)) (evs : List Ev) : String :=
+  let keys := attKeys evs
+  let bad := keys.findSome? (fun κ =>
+    attemptLogsOk κ.1.scen plan ((projAtt κ evs).filterMap (fun e => match e with | .scen _ _ se => some se | _ => none)))
+  match bad with
+  | some m => s!"!monitor NEW c20: {m}"
+  | none =>
+    if evs.getLast? != some Ev.finished then "!monitor NEW c20: stream did not end with run-Finished"
+    else "ok"
+
+end Cuke.Mon
